@@ -80,6 +80,7 @@ namespace c11
     if(st.excl.count("c11-dup-chart") && cls_dup_chart(sk)) { st.excluded["c11-dup-chart"]++; return; }
     if(st.excl.count("c11-surfmesh-index") && cls_surfmesh_index(sk)) { st.excluded["c11-surfmesh-index"]++; return; }
     if(st.excl.count("c11-surfmesh-nonmanifold") && cls_surfmesh_nonmanifold(sk)) { st.excluded["c11-surfmesh-nonmanifold"]++; return; }
+    if(st.excl.count("c11-parent-unmapped-vertex") && cls_parent_unmapped(sk)) { st.excluded["c11-parent-unmapped-vertex"]++; return; }
     if(st.excl.count("c11-mapping-index") && cls_mapping_index(sk)) { st.excluded["c11-mapping-index"]++; return; }
     Bundle<M> y; std::istringstream iss(text);
     auto rejected = [&](const char* cls) { st.classes[cls]++; iss.clear(); size_t ln = 0; site_of(sk, (std::streamoff)iss.tellg(), &ln); if(ln >= 3) st.nt(text); };
